@@ -503,6 +503,7 @@ func (r *replicator) waitForProcessSlot(ctx context.Context) (e processItem, err
 	if err := r.sem.Acquire(ctx, 1); err != nil {
 		return nil, fmt.Errorf("failed to acquire process slot: %w", err)
 	}
+	verifhook.Point("replicator.after-slot", r)
 	r.muProcess.Lock()
 
 	r.taskInProgress++
